@@ -15,6 +15,7 @@
 import CrCube.Model.Meta
 import CrCube.Spec.MetaSpec
 import CrCube.Lemmas.Meta
+import Mathlib.Data.List.Induction
 
 namespace CrCube.C05
 open CrCube CrCube.Glue CrCube.Meta CrCube.MetaSpec CrCube.MetaL
@@ -296,6 +297,80 @@ theorem fills_reindexed (x : Glue.Dim) (t : DimXf) (j : J) (o o0 : List Int) (l0
       apply mapR_ok_of_forall
       intro i hi
       exact mapR_ok_at h0 i (hsub i hi) _
+
+/-! ### (c') the element `hide` flags do not reach labels or fills -/
+
+theorem lookup_filter_ne (kvs : List (String × J)) (k : String) (hk : k ≠ "hide") :
+    (kvs.filter (fun p => p.1 != "hide")).lookup k = kvs.lookup k := by
+  induction kvs with
+  | nil => rfl
+  | cons p kvs ih =>
+    obtain ⟨a, v⟩ := p
+    by_cases ha : a = "hide"
+    · subst ha
+      have : (k == "hide") = false := by simpa using hk
+      simp [List.filter_cons, List.lookup_cons, this, ih]
+    · have h1 : (a != "hide") = true := by simpa using ha
+      simp only [List.filter_cons, h1, if_true, List.lookup_cons, ih]
+
+/-- deleting the `hide` key of a transforms entry changes neither its rename nor its fill -/
+theorem name_fill_ignore_hide (v : J) :
+    xfName (eraseKey "hide" v) = xfName v ∧ xfFill (eraseKey "hide" v) = xfFill v := by
+  cases v with
+  | obj kvs =>
+    have h1 := lookup_filter_ne kvs "name" (by decide)
+    have h2 := lookup_filter_ne kvs "fill" (by decide)
+    simp [eraseKey, xfName, xfFill, hasKey, item, Glue.get, h1, h2]
+  | _ => exact ⟨rfl, rfl⟩
+
+theorem kdGet_stripHide (k : Shim.Ref) (es : KD) :
+    kdGet k (stripHide es) = (kdGet k es).map (eraseKey "hide") := by
+  induction es with
+  | nil => rfl
+  | cons p es ih =>
+    obtain ⟨a, v⟩ := p
+    by_cases h : a = k <;> simp_all [stripHide, kdGet]
+
+/-- the key rewrite of the shim commutes with deleting the hide flags -/
+theorem rebuildWith_stripHide (tr : Shim.Ref → Option Shim.Ref) (es : KD) :
+    rebuildWith tr (stripHide es) = stripHide (rebuildWith tr es) := by
+  have hset : ∀ (k : Shim.Ref) (v : J) (l : KD), kdSet k (eraseKey "hide" v) (stripHide l) = stripHide (kdSet k v l) := by
+    intro k v l
+    induction l with
+    | nil => rfl
+    | cons p l ih =>
+      obtain ⟨a, w⟩ := p
+      by_cases h : a = k
+      · simp [stripHide, kdSet, h]
+      · have := ih
+        simp only [stripHide] at this ⊢
+        simp [kdSet, h, this]
+  induction es using List.reverseRecOn with
+  | nil => rfl
+  | append_singleton es kv ih =>
+    have e : stripHide (es ++ [kv]) = stripHide es ++ [(kv.1, eraseKey "hide" kv.2)] := by simp [stripHide]
+    rw [e, rebuildWith_append, rebuildWith_append, ih]
+    cases tr kv.1 with
+    | none => rfl
+    | some k => exact hset k kv.2 _
+
+/-- **strip(t) keeps every label and fill**: the transforms entry found for an element after the `hide`
+    flags were deleted carries the same rename and the same fill as the entry found before (whether it
+    comes from the element transforms, from an MR hidden-insertion copy, or is the default `{}`) -/
+theorem entry_ignores_hide (hid all : KD) (id : Shim.Ref) :
+    xfName (lookupXf hid (stripHide all) id) = xfName (lookupXf hid all id) ∧
+    xfFill (lookupXf hid (stripHide all) id) = xfFill (lookupXf hid all id) := by
+  unfold lookupXf mergedGet
+  rw [kdGet_stripHide, kdGet_stripHide]
+  cases h1 : kdGet id all with
+  | some v => simpa using name_fill_ignore_hide v
+  | none =>
+    cases h2 : kdGet id hid with
+    | some w => simp
+    | none =>
+      cases h3 : kdGet (.str (refStr id)) all with
+      | some v => simpa using name_fill_ignore_hide v
+      | none => simp
 
 /-! ### non-vacuity and tests -/
 
